@@ -191,6 +191,13 @@ func checkAltered(r *sim.Run, idx int, tk *issued, secrets [][]byte) {
 		err := tokens.ValidateToken(tokens.TokenOptions{ServerPrivateKey: secrets[tk.secret], ServerName: tk.server, UserID: victim}, tk.token)
 		r.Check(err != nil, "C20", "altered", "caveat_user_victim", "token for %s with appended user_id caveat validates for %s", tk.user, victim)
 	}
+	if strings.HasPrefix(tk.how, "caveat_") {
+		// whatever its holder appended to it, a token the server issued names
+		// the user it was issued for, never one the holder wrote in
+		if u, gerr := tokens.GetUserFromToken(tk.token); gerr == nil {
+			r.Check(u == tk.user, "C20", "altered", "reveals_appended_user", "GetUserFromToken on the token issued for %q, with a caveat appended by its holder (%s), reveals %q", tk.user, tk.how, u)
+		}
+	}
 }
 
 func decode(tok string) (*macaroon.Macaroon, error) {
